@@ -1,4 +1,6 @@
 import Resgate.Gw.Cache
+import Resgate.Model.Encode
+import Resgate.Model.Http
 
 /-
 The connection actors: one step = one queue item of one `wsConn`
@@ -211,6 +213,36 @@ partial def connUnsubscribe (cid uid : Nat) (direct sent : Bool) (count : Int) (
 
 end
 
+/-- `wsConn.dispose`. -/
+def disposeConn (cid : Nat) : M Unit := do
+  let c ← getConn cid
+  if c.disposing then return
+  setConn { c with disposing := true, subs := [] }
+  modify fun g => { g with live := g.live.filter (· != cid) }
+  emit s!"U conn.{cname cid}"
+  for (_, uid) in sortKV c.subs do disposeSub cid uid
+
+/-- The resource graph an HTTP GET renders: the connection's subscriptions with their load-time
+    snapshots (`Subscription.model / collection / Error()`), references resolved by resource id. -/
+def httpGraph (c : Conn) : Enc.HGraph :=
+  let hv : Val → Enc.HVal := fun v => match v with
+    | .prim n => .prim (toString n)
+    | .data n => .data ("{\"a\":" ++ toString n ++ "}")
+    | .soft r => .soft r
+    | .ref r => .ref r
+  c.subs.map fun (rid, uid) =>
+    let s := tget c.objs uid
+    match s.error with
+    | some e => (rid, Enc.HNode.err ("{\"code\":\"" ++ e ++ "\"}"))
+    | none => match s.typ with
+      | .collection => (rid, .coll (s.coll.map hv))
+      | _ => (rid, .model ((sortKV s.model).map fun (k, v) => (k, hv v)))
+
+/-- `httpError` / `httpStatusResponse`: status line and error body of an HTTP answer. -/
+def httpRespondErr (cid h : Nat) (code : String) : M Unit := do
+  emit s!"H h{h} status={errorStatus code} body=err:{code}"
+  disposeConn cid
+
 /-- `addReference`. -/
 def addReference (cid uid : Nat) (rid : String) : M (Except String Nat) := do
   let s ← getSub cid uid
@@ -420,6 +452,18 @@ partial def runRCont (cid : Nat) (k : RCont) : M Unit := do
     let r ← populate cid uid {} false
     sendFrame cid s!"res {req} ok rid={s.rid} {r.show legacy}"
     releaseRPC cid uid
+  | .httpGet h uid _ =>
+    let s ← getSub cid uid
+    match s.error with
+    | some e => httpRespondErr cid h e
+    | none =>
+      let g ← get
+      let c ← getConn cid
+      match Enc.encodeGET (httpGraph c) "/api/" g.flat s.rid with
+      | none => doPanic "encoder: nil subscription reference"
+      | some body =>
+        emit s!"H h{h} status=200 body={body}"
+        disposeConn cid
   | .addEvent parent idx v child =>
     let p ← getSub cid parent
     if p.state == .disposed then return
@@ -687,16 +731,36 @@ def runKItem (cid : Nat) (it : KItem) : M Unit := do
     setConn { c with tid := tid, token := token, hasToken := true }
     if c.hasToken then
       for (_, uid) in sortKV c.subs do reaccess cid uid none
+  | .httpGet h rid =>
+    -- GetHTTPSubscription: subscribe, then a separate access request flagged isHttp
+    match ← connSubscribe cid rid true none with
+    | .error e => httpRespondErr cid h e
+    | .ok uid =>
+      let c ← getConn cid
+      let s ← getSub cid uid
+      sendRequest s.name s!"access.{s.name}" (reqPayloadH cid c.token s.query "" true)
+        (fun eid => .httpAccess eid ⟨cid, uid⟩ h)
+  | .httpAccess h uid a ms =>
+    let direct := match ms with
+      | some st => 300 ≤ st && st < 600
+      | none => false
+    if direct then
+      let st := ms.getD 0
+      if st < 400 then emit s!"H h{h} status={st} body=-"
+      else
+        let code := match a.err with
+          | some e => e
+          | none => statusError st
+        emit s!"H h{h} status={st} body=err:{code}"
+      disposeConn cid
+    else
+      match a.canGet with
+      | some e => httpRespondErr cid h e
+      | none => onReady cid uid (.httpGet h uid ms)
   | .tokenReset tids subject =>
     let c ← getConn cid
     if c.tid == "" || !tids.contains c.tid then return
     registerReq subject (reqPayload cid c.token "" "") .tokenAuth
-  | .dispose =>
-    let c ← getConn cid
-    if c.disposing then return
-    setConn { c with disposing := true, subs := [] }
-    modify fun g => { g with live := g.live.filter (· != cid) }
-    emit s!"U conn.{cname cid}"
-    for (_, uid) in sortKV c.subs do disposeSub cid uid
+  | .dispose => disposeConn cid
 
 end Resgate.Gw
